@@ -1,7 +1,7 @@
 """C03 — simulation-based check (real executor code on the simulated kernel) + monitors."""
 from checks import simcommon as S
 
-FAMILIES = ['plain', 'timeout', 'kill', 'resize']
+FAMILIES = ['plain', 'timeout', 'kill', 'resize', 'spawnfail']
 PER_FAMILY = (300, 6000)
 
 
